@@ -140,7 +140,7 @@ def _sign_one(R, rule, N):
     symalg.install(S, [(CP + r"::fft$", m_fft), (CP + r"::ifft$", m_ifft), (r"^falcon_rust::polynomial::hash_to_point$", m_h2p),
                        (r"^falcon_rust::ffsampling::ffsampling$", m_ffs), (r"^falcon_rust::encoding::compress$", m_compress)])
     sign = S.find(f"falcon::sign::<{N}>")
-    fcmps, arrs = [], []
+    fcmps, arrs, polys, ffs_seen = [], [], [], [False]
 
     def obs(evn, **kw):
         if ctx.quiet:
@@ -153,6 +153,16 @@ def _sign_one(R, rule, N):
             v = kw["value"]
             if type(v) is Sq and v.head and len(v.head) == 2 and type(v.head[0]) is Ag and len(v.head[0].f) == 1 and type(v.head[0].f[0]) is Sq and type(v.head[0].f[0].elem) is Ag:
                 arrs.append((v, kw["st"].copy()))
+            if (ffs_seen[0] and type(v) is Ag and len(v.f) == 1 and type(v.f[0]) is Sq and v.f[0].head and len(v.f[0].head) == NN
+                    and type(v.f[0].elem) is Ag and len(v.f[0].elem.f) == 2 and type(v.f[0].elem.f[0]) is Fl and len(polys) < 64):
+                polys.append((v, kw["st"].copy()))
+        if evn == "ret" and kw["frame"].inst is sign and ffs_seen[0]:
+            v = kw["value"]
+            if (type(v) is Ag and len(v.f) == 1 and type(v.f[0]) is Sq and v.f[0].head and len(v.f[0].head) == NN
+                    and type(v.f[0].elem) is Ag and len(v.f[0].elem.f) == 2 and type(v.f[0].elem.f[0]) is Fl and len(polys) < 64):
+                polys.append((v, kw["st"].copy()))
+        if evn == "enter" and kw["callee"].name.endswith("ffsampling::ffsampling"):
+            ffs_seen[0] = True
     ctx.observers.append(obs)
     st = St()
 
@@ -170,6 +180,51 @@ def _sign_one(R, rule, N):
         return
     ffts = [(c[1], c[2]) for c in calls if c[0] == "fft"]
     ffs = [c for c in calls if c[0] == "ffsampling"]
+    if outs and ffs and not arrs:
+        # the kept candidate is not held in a two-element array: its second component is what the inverse transform is applied
+        # to; its first component is looked for among the polynomials computed after the sampler call — the one for which the
+        # pair is (+-c, 0) at z = 0 (clause a); clauses (b)-(e) are then decided for that pair as usual
+        iff0 = [c for c in calls if c[0] == "ifft"]
+        if iff0:
+            s1v, st1 = iff0[-1][1], iff0[-1][2]
+
+            class TwoStates:
+                def __init__(self, a, b):
+                    self.a, self.b = a, b
+
+                def const_vid(self, v):
+                    c = self.a.const_vid(v)
+                    return c if c is not None else self.b.const_vid(v)
+            for pv_, stp in polys:
+                try:
+                    tg0, tg1 = coeff_tags(pv_), coeff_tags(s1v)
+                    env = Env(7)
+                    for e in range(NN):
+                        g_, f_, F_ = env.c(f"^b0[{e}]"), -env.c(f"^b1[{e}]"), -env.c(f"^b3[{e}]")
+                        env.setc(f"^b2[{e}]", (Q + g_ * F_) / f_)
+                        env.setc(f"zA[{e}]", 0j)
+                        env.setc(f"zB[{e}]", 0j)
+                    ts = TwoStates(stp, st1)
+
+                    def le(leaf):
+                        if isinstance(leaf, tuple):
+                            c = ts.const_vid(leaf[1])
+                            return float(c) if c is not None else None
+                        return env(leaf)
+                    import os
+                    if os.environ.get("DBG_SIGN"):
+                        print("cand", cev(tg0[0], le), env.c("^c[0]"), cev(tg1[0], le))
+                    if all((close(cev(tg0[e], le), env.c(f"^c[{e}]")) or close(cev(tg0[e], le), -env.c(f"^c[{e}]"))) and close(cev(tg1[e], le), 0j) for e in range(NN)):
+                        arrs.append((Sq(pv_, ctx.const_int(st1, 2, usz), {0: pv_, 1: s1v}), ts))
+                        break
+                except (NotSymbolic, AttributeError, IndexError, KeyError) as ex:
+                    import os
+                    if os.environ.get("DBG_SIGN"):
+                        print("cand fail", type(ex).__name__, ex)
+                    continue
+        import os
+        if os.environ.get("DBG_SIGN"):
+            print("polys", len(polys), "iff0", len(iff0), "arrs", len(arrs))
     if not outs or not ffs or not arrs:
         R.violation(rule, site, f"symbolic run incomplete: {len(outs)} outcomes, {len(ffs)} sampler calls, {len(arrs)} candidate pairs", key=f"sign|{N}|run{KS}")
         return
